@@ -427,7 +427,8 @@ def _fmt(prog):
         if st[0] == "create":
             out.append(CREATE[st[1]][0].replace("\n", "; "))
         elif st[0] == "event":
-            out.append("x + np.ones(7) (fails)" if st[1] == "FAIL" else st[1])
+            out.append({"FAIL": "x + np.ones(7) (fails)", "FAILKEEP": "try: mg.add(x, A, out=np.zeros(7)); mg.multiply(x, O, out=np.zeros(7)) (both fail, exceptions kept)",
+                        "DROPEXC": "drop the kept exceptions"}.get(st[1], st[1]))
         else:
             out.append(("del %s" % st[1]) if st[2] == "del" else ("%s.clear_graph()" % st[1]))
     return "; ".join(out)
